@@ -104,3 +104,9 @@ def _rebuild(item):
     if isinstance(item, Quantified): return Quantified(item.quantifier, _rebuild(item.variable), _rebuild(item.sentence))
     if isinstance(item, Predicated): return Predicated(item.predicate if item.predicate.is_system else _rebuild(item.predicate), tuple(_rebuild(x) for x in item.params))
     return type(item)(item.spec)
+
+def hostile(arg):
+    """the same argument with every sentence rebuilt bottom-up after the item cache rolled over: equal sentences and equal
+    parameters in different premises are different objects (what a long-running session sees once the bounded cache evicts)"""
+    from pytableaux.lang import Argument
+    return Argument(distinct_equal(arg.conclusion), [distinct_equal(p) for p in arg.premises])
